@@ -544,6 +544,10 @@ func (c *controlConn) close() {
 	if atomic.CompareAndSwapInt32(&c.state, controlConnStarted, controlConnClosing) {
 		verifYield("ctl.close", nil, 0)
 		c.quit <- struct{}{}
+	} else {
+		// the heartbeat goroutine was started by connect but has not run yet: it gives up
+		// when it finds that the state is no longer "starting"
+		atomic.CompareAndSwapInt32(&c.state, controlConnStarting, controlConnClosing)
 	}
 
 	ch := c.getConn()
